@@ -29,12 +29,12 @@ def _fill_two(nslots: int, alphabet: Sequence[Atom], free: Atom) -> Iterator[Lis
                 yield [a if i == j else b if i == k else free for i in range(nslots)]
 
 
-def _render_all(prog: Any, atoms: List[Atom], fall_off: bool, version: int) -> Iterator[str]:
+def _render_all(prog: Any, atoms: List[Atom], fall_off: bool, version: int, pad: Sequence[str] = ("int 7", "pop")) -> Iterator[str]:
     has_subs = bool(prog[1])
     for subs_first in (False, True) if has_subs else (False,):
-        yield core.render(prog, atoms, subs_first=subs_first, version=version)
+        yield core.render(prog, atoms, subs_first=subs_first, version=version, pad=pad)
         if fall_off and (subs_first or not has_subs):
-            yield core.render(prog, atoms, subs_first=subs_first, fall_off=True, version=version)
+            yield core.render(prog, atoms, subs_first=subs_first, fall_off=True, version=version, pad=pad)
 
 
 def layered(  # pylint: disable=too-many-arguments,too-many-locals,too-many-branches
@@ -48,11 +48,13 @@ def layered(  # pylint: disable=too-many-arguments,too-many-locals,too-many-bran
     l2_size: Optional[int] = None,
     l3: bool = True,
     max_subs: Optional[int] = None,
+    pad: Sequence[str] = ("int 7", "pop"),
+    l2_top_alpha: Optional[int] = None,
 ) -> Iterator[str]:
     seen: Set[str] = set()
 
     def emit(prog: Any, atoms: List[Atom], fo: bool) -> Iterator[str]:
-        for s in _render_all(prog, atoms, fo, version):
+        for s in _render_all(prog, atoms, fo, version, pad):
             if s not in seen:
                 seen.add(s)
                 yield s
@@ -79,6 +81,8 @@ def layered(  # pylint: disable=too-many-arguments,too-many-locals,too-many-bran
         for size in range(1, n2 + 1):
             if tier != "quick" and size == 4 and nsubs == 0:
                 alpha: Sequence[Atom] = small[:2]
+            elif l2_top_alpha is not None and size == n2 and size >= 3:
+                alpha = small[:l2_top_alpha]
             else:
                 alpha = small
             for prog, k in core.skeletons(size, o):
